@@ -338,11 +338,20 @@ func (p *PPS) Encode(temporalIDPlus1 uint) *Coded {
 					for k, nm := range []string{"left", "top", "right", "bottom"} {
 						e.SE(idx("scaled_ref_layer_"+nm+"_offset", lid), o.ScaledRefLayer[k])
 					}
+				} else {
+					// F.7.4.3.3.4: inferred to be equal to 0 when not present
+					for _, nm := range []string{"left", "top", "right", "bottom"} {
+						e.Derived(idx("scaled_ref_layer_"+nm+"_offset", lid), 0)
+					}
 				}
 				e.Flag(idx("ref_region_offset_present_flag", lid), o.RefRegionPresent)
 				if o.RefRegionPresent {
 					for k, nm := range []string{"left", "top", "right", "bottom"} {
 						e.SE(idx("ref_region_"+nm+"_offset", lid), o.RefRegion[k])
+					}
+				} else {
+					for _, nm := range []string{"left", "top", "right", "bottom"} {
+						e.Derived(idx("ref_region_"+nm+"_offset", lid), 0)
 					}
 				}
 				e.Flag(idx("resample_phase_set_present_flag", lid), o.ResamplePhaseSetPresent)
@@ -350,6 +359,10 @@ func (p *PPS) Encode(temporalIDPlus1 uint) *Coded {
 					for k, nm := range []string{"phase_hor_luma", "phase_ver_luma", "phase_hor_chroma_plus8", "phase_ver_chroma_plus8"} {
 						e.UE(idx(nm, lid), o.Phase[k])
 					}
+				} else {
+					// the luma phases are inferred to be 0 (the chroma ones have other inferred values and are not listed)
+					e.Derived(idx("phase_hor_luma", lid), 0)
+					e.Derived(idx("phase_ver_luma", lid), 0)
 				}
 			}
 			e.Flag("colour_mapping_enabled_flag", x.ColourMapping != nil)
